@@ -44,6 +44,8 @@ def problems_of(r, plain_outcome, plain_exc):
 
 
 def defect_class(r):
+    if r.case.get("direct_only"):
+        return None
     if r.outcome[0] == "cfailed":
         return SIG_A
     if r.outcome[0] == "failed" and r.outcome[3] in tl.BASE_ONLY:
@@ -127,6 +129,21 @@ def run(ck):
                               dict(tl.replay_obj(c, rs[0]), kind="launch-style", mode=mode, detail=detail, problems=lp[:10]))
                 reported[s] = None
     counts["launch_style_sequences"] = launch_seq
+    # a transport that fails on the publish after node k (every k), file and directory output
+    tf_nodes = [{"k": "src", "cfg": {"value": 2}}, {"k": "mul", "cfg": {"factor": 3}}, {"k": "probe", "ckey": "k"}, {"k": "add", "cfg": {"addend": 1}}]
+    for k in range(len(tf_nodes)):
+        for mode in tl.MODES:
+            detail = tl.DETAILS[(k + len(mode)) % 4]
+            tp = tl.transport_failure_problems(tf_nodes, k, detail, mode)
+            runs += 1
+            if tp:
+                s = "C06:transport-failure-after-node:%s" % tp[0].split(" ")[0].rstrip(":")
+                if s not in reported:
+                    counts["finding:" + s] += 1
+                    ck.fail_input(s, "the transport's publish after node %d raises (detail=%s, %s output): %s" % (k, detail, mode, "; ".join(tp)),
+                                  {"kind": "transport-failure", "nodes": [tl.node_repr(n) for n in tf_nodes], "descriptors": tf_nodes, "data0": None, "ctx0": {},
+                                   "fail_at": k, "detail": detail, "mode": mode, "problems": tp})
+                    reported[s] = None
     bad, errs = tl.evaluate("C06", texts)
     for k, rc, out in errs:
         ck.corr_problem("correspondence shard %d did not evaluate (rc=%s)" % (k, rc), out)
@@ -163,6 +180,10 @@ def run(ck):
 def replay(obj):
     r = obj["replay"]
     c = {"nodes": r["descriptors"], "data0": r["data0"], "ctx0": r["ctx0"], "kind": r.get("kind")}
+    if r.get("kind") == "transport-failure":
+        tp = tl.transport_failure_problems(c["nodes"], r["fail_at"], r.get("detail", "hash"), r.get("mode", "file"))
+        print("problems now:", tp, "| recorded:", r.get("problems"))
+        return 1 if tp else 0
     if r.get("kind") == "launch-style":
         rs, lp = tl.launch_style_runs(c["nodes"], c["data0"], c["ctx0"], r.get("detail", "hash"), r.get("mode", "directory"))
         print("nodes:", json.dumps(r["nodes"]))
